@@ -59,7 +59,10 @@ _CSV = ListHandler()
 
 
 def _prepare_loggers():
+    # another suite in this process may have switched logging off globally; the CSV trace IS a logger
+    logging.disable(logging.NOTSET)
     lg = logging.getLogger("Simulator_CSV")
+    lg.disabled = False
     lg.handlers = [_CSV]
     lg.propagate = False
     lg.setLevel(logging.DEBUG)
